@@ -155,7 +155,7 @@ func (c *c14Case) genReq(t *rapid.T, lbl string, faults bool) *c14Req {
 	wd := c.wd
 
 	// Which dimension may deviate from the defect-free choice.
-	r.profile = c14Pick(t, lbl+"profile", []c14W{{"valid", 34}, {"one", 40}, {"free", 26}})
+	r.profile = c14Pick(t, lbl+"profile", []c14W{{"valid", 22}, {"one", 45}, {"free", 33}})
 	dims := []string{"origin", "mode", "old", "proof", "sig", "hdr", "text", "junk"}
 	dev := map[string]bool{}
 	switch r.profile {
@@ -400,16 +400,18 @@ func (c *c14Case) genReq(t *rapid.T, lbl string, faults bool) *c14Req {
 
 	// faults
 	if faults {
+		// (rapid draws small values more often; the fault values sit in the
+		// flat middle of the range: about 5 % each)
 		switch rapid.IntRange(0, 15).Draw(t, lbl+"lockfault") {
-		case 0:
+		case 9:
 			r.lockF = c14FaultNotApplied
-		case 1:
+		case 10:
 			r.lockF = c14FaultApplied
 		}
 		switch rapid.IntRange(0, 19).Draw(t, lbl+"upfault") {
-		case 0:
+		case 11:
 			r.upF = c14UpFail
-		case 1:
+		case 12:
 			r.upF = c14UpFailStored
 		}
 	}
@@ -637,7 +639,7 @@ func (c *c14Case) specStep(r *c14Req, s c14State, resp c14Resp) (next c14State, 
 			d[403] = true
 		}
 		if !d[resp.code] {
-			return next, fmt.Sprintf("answered %d %q, want one of %v (recorded size %d)", resp.code, strings.TrimSpace(resp.body), c14Codes(d), s.size())
+			return next, fmt.Sprintf("answered %d %q, want one of %v (recorded size %d)", resp.code, c14Clip(strings.TrimSpace(resp.body), 60), c14Codes(d), s.size())
 		}
 		if resp.code == 409 {
 			if want := fmt.Sprintf("%d\n", s.size()); resp.body != want || resp.ctype != "text/x.tlog.size" {
@@ -654,7 +656,7 @@ func (c *c14Case) specStep(r *c14Req, s c14State, resp c14Resp) (next c14State, 
 			return adv, "" // 200 or an error are both acceptable once the lock store holds the checkpoint
 		}
 		if resp.code != 200 {
-			return next, fmt.Sprintf("defect-free request without faults answered %d %q, want 200 (recorded size %d)", resp.code, strings.TrimSpace(resp.body), s.size())
+			return next, fmt.Sprintf("defect-free request without faults answered %d %q, want 200 (recorded size %d)", resp.code, c14Clip(strings.TrimSpace(resp.body), 60), s.size())
 		}
 		return adv, ""
 	case c14FaultNotApplied:
@@ -758,16 +760,18 @@ func (c *c14Case) runStep(t *rapid.T, reqs []*c14Req) {
 
 func (c *c14Case) fail(t *rapid.T, reqs []*c14Req, resps []c14Resp, format string, a ...any) {
 	var b strings.Builder
-	fmt.Fprintf(&b, "C14 violated: "+format+"\n", a...)
+	head := fmt.Sprintf("C14 violated: "+format, a...)
+	fmt.Fprintf(&b, "%s\n  steps so far: %s\n", head, c14Clip(strings.Join(c.desc, " ; "), 1500))
 	for i, r := range reqs {
 		s := &c14State{}
 		if r.o != c.ghost {
 			s = c.st[r.o.idx]
 		}
 		fmt.Fprintf(&b, "  request %d: origin %q registered=%v | state before step: f%d@%d | %s\n    -> %d %q (%s)\n    body: %q\n",
-			i, r.o.origin, r.o.registered, s.tree.fork, s.tree.size, r.desc(), resps[i].code, c14Clip(resps[i].body, 120), resps[i].ctype, c14Clip(string(r.body), 700))
+			i, r.o.origin, r.o.registered, s.tree.fork, s.tree.size, r.desc(), resps[i].code, c14Clip(resps[i].body, 80), resps[i].ctype, c14Clip(string(r.body), 330))
 	}
-	fmt.Fprintf(&b, "  steps so far: %s", strings.Join(c.desc, " ; "))
+	// (the driver shows the tail of the log: repeat the verdict there)
+	fmt.Fprintf(&b, "  => %s", c14Clip(head, 600))
 	t.Fatalf("%s", b.String())
 }
 
@@ -1046,7 +1050,7 @@ func c14RunCase(t *rapid.T, keys *c14Keys, dir string, rec *vfstat.Recorder, con
 	register(nreg, "list0.")
 	c.desc = append(c.desc, fmt.Sprintf("origins=%d registered=%d maxlen=%d", norg, nreg, maxLen))
 
-	nsteps := rapid.IntRange(6, 20).Draw(t, "nsteps")
+	nsteps := rapid.IntRange(8, 24).Draw(t, "nsteps")
 	for step := 0; step < nsteps; step++ {
 		lbl := fmt.Sprintf("s%d.", step)
 		kind := c14Pick(t, lbl+"kind", []c14W{{"req", 100 - concBias - 18}, {"batch", concBias}, {"restart", 12}, {"pull", 6}})
